@@ -145,7 +145,8 @@ int cp_ecdsa_ver(const bn_t r, const bn_t s, const uint8_t *msg, size_t len,
 		ec_curve_get_ord(n);
 
 		if (bn_sign(r) == RLC_POS && bn_sign(s) == RLC_POS &&
-				!bn_is_zero(r) && !bn_is_zero(s) && ec_on_curve(q)) {
+				!bn_is_zero(r) && !bn_is_zero(s) && !ec_is_infty(q) &&
+				ec_on_curve(q)) {
 			if (bn_cmp(r, n) == RLC_LT && bn_cmp(s, n) == RLC_LT) {
 				bn_mod_inv(k, s, n);
 
